@@ -37,7 +37,7 @@ pub(super) struct Debugger {
     breakpoints: Breakpoints,
 
     /// Amount of instructions executed since last command.
-    instruction_count: u32,
+    instruction_count: u64,
     /// Whether PC should be displayed on next command prompt.
     should_echo_pc: bool,
 }
